@@ -70,6 +70,14 @@ CHECKS = {
               "failures must leave getEEPos() equal to the pose of the stored joint vector; starts within 0.02 rad of a "
               "well-conditioned in-limit solution must succeed (perturbation filter)."),
         ref="DESIGN.md section 5 / C07"),
+    "C08": dict(
+        technique="runtime monitoring: physical-identity oracles + cross-implementation agreement on generated chains/states",
+        text=("288 (quick) / 2e4 (thorough) generated (chain, state) cases: mass matrix SPD and equal to sum J_i^T G_i J_i with the "
+              "oracle's own link Jacobians, FD(ID)=id, torque decomposition, tip term = J_b^T F, qd.c = 1/2 qd^T Mdot qd "
+              "(Richardson), gravity torque = gradient of the potential (physical inertias), energy conservation on integrated "
+              "torque-free trajectories; all seven Arm-level dynamics methods compared with the mr functions on arms configured "
+              "through the public setters (6R test arm and random chains)."),
+        ref="DESIGN.md section 5 / C08"),
     "C12": dict(
         technique="runtime monitoring: reference-oracle monitor (own adjoint) over generated frames/operands",
         text=("Frame-change group action, recorded frame, pairing invariance, p x f moment and zero moment at the "
@@ -77,6 +85,13 @@ CHECKS = {
               "Wrench on 1.2e4 (quick) / 6.4e5 (thorough) generated cases covering every operand kind (Python/NumPy "
               "scalars, 6-arrays, 6x1 arrays, objects) against an oracle built from the frames' published matrices."),
         ref="DESIGN.md section 5 / C12"),
+    "C13": dict(
+        technique="runtime monitoring: differential check of the loaded arm against an independent URDF-semantics parser on generated files",
+        text=("The five bundled files and 320 (quick) / 2e4 (thorough) generated single-chain URDFs (1..8 moving, 0..4 fixed joints "
+              "anywhere, each optional element omitted independently, generic axes, world link, inertials, shuffled order) are "
+              "loaded with loadArmFromURDF; num_dof, joint order, names and written limits must match an independent parser "
+              "exactly and FK must match the file's semantics to 1e-6 on 20 joint vectors inside the limits each."),
+        ref="DESIGN.md section 5 / C13"),
     "C15": dict(
         technique="runtime monitoring: exact rational oracle, exhaustive lattice enumeration of the real function",
         text=("RRTStar.obstruction is called on real PathNode/tm objects and compared with exact rational slab "
